@@ -11,9 +11,13 @@ pub mod c07;
 pub mod c08;
 pub mod c09;
 pub mod c10;
+pub mod c11;
+pub mod c12;
 pub mod c13;
 pub mod c14;
 pub mod c15;
+pub mod c16;
+pub mod c17;
 
 #[derive(Clone, Copy, PartialEq, Eq, Debug)]
 pub enum Tier {
@@ -75,9 +79,13 @@ pub fn scenario_by_name(name: &str, params: &Value) -> Scenario {
         "C08" => c08::scenario(name, params),
         "C09" => c09::scenario(name, params),
         "C10" => c10::scenario(name, params),
+        "C11" => c11::scenario(name, params),
+        "C12" => c12::scenario(name, params),
         "C13" => c13::scenario(name, params),
         "C14" => c14::scenario(name, params),
         "C15" => c15::scenario(name, params),
+        "C16" => c16::scenario(name, params),
+        "C17" => c17::scenario(name, params),
         _ => {
             eprintln!("MACHINERY: unknown scenario {}", name);
             std::process::exit(2);
@@ -93,9 +101,13 @@ pub fn check_by_id(id: &str, tier: Tier) -> Check {
         "C08" => c08::check(tier),
         "C09" => c09::check(tier),
         "C10" => c10::check(tier),
+        "C11" => c11::check(tier),
+        "C12" => c12::check(tier),
         "C13" => c13::check(tier),
         "C14" => c14::check(tier),
         "C15" => c15::check(tier),
+        "C16" => c16::check(tier),
+        "C17" => c17::check(tier),
         _ => {
             eprintln!("MACHINERY: no check for property {}", id);
             std::process::exit(2);
